@@ -420,7 +420,7 @@ func genC02(g *Gen) {
 	for b := 1; b < 256; b++ {
 		for _, low := range []uint64{0x01, 0x81, 0x92, 0xff} {
 			for q := 0; q < 4; q++ {
-				if !g.Thorough && (b+q+int(low))%4 != 0 {
+				if !g.Thorough && (b+q+int(low))%8 != 0 {
 					continue
 				}
 				ws := []uint64{(uint64(b)<<8 | low) << uint(16*q)}
